@@ -532,7 +532,7 @@ def _mark_reuse(r, ops):
     to a caller-owned object that the caller later mutates is Python aliasing, which C04's
     statement does not rule on."""
     pool = {}
-    owned = {}          # (client, executor) -> ids of the objects that client has passed to that executor so far
+    owned = {}          # client -> ids of the objects that client has passed to any executor so far
     nid = 0
     out = []
     for op in ops:
@@ -540,7 +540,7 @@ def _mark_reuse(r, ops):
         used_here = set()
         for it in items:
             key = (op['client'], op.get('ex', 0), tuple(it['tg']), core.canon(it['at']))
-            mine = owned.setdefault((op['client'], op.get('ex', 0)), [])
+            mine = owned.setdefault(op['client'], [])      # the client's own objects, whichever executor saw them last
             cands = [i for i in mine if i not in used_here]
             if key in pool and r.random() < 0.6 and pool[key] not in used_here:
                 it['obj'] = pool[key]
